@@ -69,6 +69,23 @@ func ruleC03Filter(cx *Ctx) {
 	if yields == 0 {
 		cx.R.Violate(rule, "(*cache).nodes", "sink", "-", "NOT SATISFIED: the iterator no longer yields nodes / entries in a recognisable way")
 	}
+	// the table's own Range is an unfiltered source: it is only ever called with a callback (whose sink is checked above),
+	// never handed out as an iterator itself
+	if rng := cx.P.Func(hmPkg, "Map", "Range"); rng != nil {
+		hm := cx.P.Field("", "cache", "hashmap")
+		for _, f := range cx.P.FuncsOfPkg("") {
+			allInstrs(f, func(in ssa.Instruction) {
+				mc, ok := in.(*ssa.MakeClosure)
+				if !ok {
+					return
+				}
+				if bm := boundMethod(mc); bm != nil && origin(bm) == origin(rng) {
+					onMain := len(mc.Bindings) > 0 && (hm == nil || sameField(fieldOf(mc.Bindings[0]), hm))
+					cx.R.Check(!onMain, rule, funcName(f), "table Range handed out as an iterator", cx.P.where(in), "the main table's Range (which enumerates retired and expired nodes too) is used only with a filtering callback, never as the iterator itself")
+				}
+			})
+		}
+	}
 	// sink 2: the ordered iterator converts nodes into entries
 	entries := 0
 	withClosures(eo, func(f *ssa.Function) {
